@@ -158,8 +158,25 @@ fn emits_by_leaf(log: &[Rec]) -> BTreeMap<u32, Vec<&Snap>> {
 pub fn compare(log: &[Rec], want: &Expect, accepted: bool, what: &str, cx: &mut Cx) -> Res {
     // deliveries: exactly the expected multiset per leaf
     let have = emits_by_leaf(log);
+    // a filter leaf that logs its decision owes its audit runtime's destinations one emission per
+    // evaluation; how often it is evaluated is don't-care, so the count is the OBSERVED one
+    let mut owed;
+    let want_emits: &BTreeMap<u32, Vec<MSnap>> = if want.per_eval.is_empty() {
+        &want.emits
+    } else {
+        owed = want.emits.clone();
+        for (leaf, per) in &want.per_eval {
+            let n = log.iter().filter(|r| matches!(r, Rec::FilterSaw { id, .. } if id == leaf)).count();
+            for _ in 0..n {
+                for (dest, snaps) in per {
+                    owed.entry(*dest).or_default().extend(snaps.iter().cloned());
+                }
+            }
+        }
+        &owed
+    };
     for (id, got) in &have {
-        let exp = want.emits.get(id).map(|v| v.as_slice()).unwrap_or(&[]);
+        let exp = want_emits.get(id).map(|v| v.as_slice()).unwrap_or(&[]);
         if exp.is_empty() {
             if accepted {
                 cx.fail(
@@ -182,7 +199,7 @@ pub fn compare(log: &[Rec], want: &Expect, accepted: bool, what: &str, cx: &mut 
             continue;
         }
     }
-    for (id, exp) in &want.emits {
+    for (id, exp) in want_emits {
         let got = have.get(id).map(|v| v.as_slice()).unwrap_or(&[]);
         if got.len() < exp.len() {
             cx.fail(
@@ -443,6 +460,18 @@ where
         cx.class_if(evaluated(ID_FILTER, ID_WHEN) == 0, "dont-care:effective-filter-has-no-recording-leaf-evaluated");
     }
     cx.class_if(evaluated(ID_FILTER, ID_DEST) >= 3, "filter-leaves-evaluated>=3");
+    // audit filter leaves that WERE evaluated (observed) and owed their audit runtime an emission
+    {
+        let mut fired = 0;
+        let mut delivered = 0;
+        for (leaf, per) in &m.main.per_eval {
+            let n = log1.iter().filter(|r| matches!(r, Rec::FilterSaw { id, .. } if id == leaf)).count();
+            fired += n;
+            delivered += n * per.values().map(|v| v.len()).sum::<usize>();
+        }
+        cx.class_if(fired > 0, "nested-emit:audit-filter-leaf-evaluated-and-emitted");
+        cx.class_if(delivered > 0, "nested-emit:audit-filter-leaf-emission-delivered");
+    }
 
     // 2. the same tree with every node behind `dyn Erased*`: identical observations, in order
     let (f2, w2, e2) = build(true);
@@ -637,6 +666,28 @@ pub fn classify(c: &Case, m: &Model, cx: &mut Cx) {
             m.full.typed().iter().any(|t| t.is_some()),
             "typed-lookup:some-typed-key-casts",
         );
+    }
+    // nested emissions (a leaf that emits into another runtime while it handles an event) the model
+    // came across in the run through the runtime: those of destination leaves are certain to happen,
+    // those of filter leaves happen when the leaf is evaluated (don't-care)
+    for n in &m.main.nested {
+        let certain = !n.from_filter;
+        cx.class(if certain { "nested-emit:from-destination-leaf" } else { "nested-emit:from-filter-leaf(if-evaluated)" });
+        if !certain {
+            continue;
+        }
+        cx.class(n.via.class());
+        cx.class(match (n.around[0], n.via.is_macro()) {
+            (true, true) => "nested-emit:outer-macro/inner-macro",
+            (true, false) => "nested-emit:outer-macro/inner-generic",
+            (false, true) => "nested-emit:outer-generic/inner-macro",
+            (false, false) => "nested-emit:outer-generic/inner-generic",
+        });
+        cx.class_if(n.via.is_macro() && n.around.iter().any(|m| *m), "nested-emit:macro-while-a-macro-emission-is-in-flight");
+        cx.class_if(n.depth >= 2, "nested-emit:depth>=2");
+        cx.class_if(n.depth >= 2 && n.via.is_macro() && n.around[1..].iter().any(|m| *m), "nested-emit:depth>=2/macro-inside-nested-macro");
+        cx.class_if(n.uses_when, "nested-emit:call-site-filter");
+        cx.class(if n.accepted { "nested-emit:accepted" } else { "nested-emit:rejected" });
     }
     cx.class_if(c.filter.nodes() >= 5, "filter-tree>=5-nodes");
     cx.class_if(c.dest.nodes() >= 5, "dest-tree>=5-nodes");
